@@ -23,7 +23,7 @@ A = "websocket._abnf:"
 U = "websocket._utils:"
 K = "websocket._core:"
 SK = "websocket._socket:"
-COST.update({K + "WebSocket.recv_data_frame": 100, K + "WebSocket.recv": 40, A + "frame_buffer.recv_frame": 10, A + "ABNF.format": 5})
+COST.update({K + "WebSocket.close": 100, K + "WebSocket.recv_data_frame": 100, K + "WebSocket.recv": 40, A + "frame_buffer.recv_frame": 10, A + "ABNF.format": 5})
 
 T_TRANSPORT = "assumed contract of the transport (socket.recv / socket.send): which prefix is delivered/accepted and which error is raised are unconstrained (DESIGN.md section 3)"
 T_KEYSRC = "assumed contract of the key source (os.urandom / user callable): returns 4 bytes or a 4-character ASCII str; randomness quality is not a contract"
@@ -78,6 +78,16 @@ PROPS = {
     "C07": dict(
         functions=[K + "WebSocket.recv_data_frame", K + "WebSocket.pong", K + "WebSocket.send", K + "WebSocket.send_frame", A + "ABNF.format"],
         lemmas=[], trusted_base=[T_TRANSPORT, T_KEYSRC], assumptions=[], not_decided=[]),
+    "C08": dict(
+        functions=[K + "WebSocket.__init__", K + "WebSocket.close", K + "WebSocket.shutdown", K + "WebSocket.abort", K + "WebSocket.send_close",
+                   K + "WebSocket.send", K + "WebSocket.send_frame", K + "WebSocket._send", K + "WebSocket._recv", SK + "send", SK + "recv",
+                   K + "WebSocket.recv_data_frame", K + "WebSocket.recv"],
+        lemmas=[],
+        trusted_base=[T_TRANSPORT, "assumed contracts of sock.close()/shutdown()/settimeout()/gettimeout() and time.time() (non-decreasing clock)"],
+        assumptions=["object invariant WSI (no transport => unconnected; auto_close_frames <= 1; auto_close_frames = 1 => unconnected) is "
+                     "established by __init__ and preserved by every public method under contract, hence over all call/event histories",
+                     "explicit user calls of send_close() are not counted as 'own initiative' (the statement's parenthesis names close() and the reply)"],
+        not_decided=["close() returns within its timeout (a wall-clock bound on a loop whose progress depends on the peer)"]),
     "C12": dict(
         functions=[K + "WebSocket.send_frame", K + "WebSocket._send", SK + "send", K + "WebSocket.recv", A + "frame_buffer.recv_frame",
                    K + "WebSocket.recv_data_frame"],
